@@ -11,6 +11,9 @@ use crate::error::{FeoxError, Result};
 use crate::storage::format::{get_format_ref, sector_holds_record};
 
 use super::FeoxStore;
+// Under the verification guard `parking_lot::RwLock` below resolves to the scheduling shim.
+#[cfg(feoxdb_verif)]
+use crate::verif::sync as parking_lot;
 
 const ZERO_SCAN_BLOCKS: usize = 256;
 
